@@ -1,3 +1,4 @@
 import SupervisorModel.Basic.DriverKit
--- stub: replaced by the property author
-def main : IO Unit := Sv.driverMain []
+import SupervisorModel.Model.SupDriver
+import SupervisorModel.Model.Robust
+def main : IO Unit := Sv.driverMain [("sup", Sv.Sup.runCase), ("mkpipes", Sv.Robust.runCase)]
